@@ -5,12 +5,13 @@ cd /verif
 # the evidence files are rewritten by every run: keep the ones of the unchanged tree
 rm -rf /tmp/.evidence_keep && cp -r evidence /tmp/.evidence_keep
 trap 'cp /tmp/.evidence_keep/*.json /verif/evidence/ 2>/dev/null; rm -rf /tmp/.evidence_keep' EXIT
-for d in seeded/*/; do
+for d in seeded/C*-*/; do
   id=$(basename $d); prop=${id%%-*}
   if [ $# -gt 0 ] && [[ ! " $* " =~ " $prop " ]] && [[ ! " $* " =~ " $id " ]]; then continue; fi
   git -C /repo diff --quiet || { echo "/repo is dirty, refusing"; exit 2; }
   git -C /repo apply /verif/$d/patch.diff || { echo "$id: patch does not apply"; continue; }
   out=$(./check $prop quick 2>&1 | grep -E "^VIOLATION|^$prop quick" | tr '\n' ' ')
   git -C /repo checkout -- .
+  mkdir -p seeded/results; echo "$out" > seeded/results/$id.txt
   echo "$id: $out"
 done
